@@ -252,22 +252,39 @@ func VerifC18ReadSeq(l1, l2 int) {
 	f1, f2 := verifBytes("frame", l1), verifBytes("frame", l2)
 	raw := &verifRawConn{frames: [][]byte{f1, f2}}
 	conn := NewBroadcastUDPConn(raw, &net.UDPAddr{Port: 68})
-	var want [][]byte
+	var want, wantSrc [][]byte
+	var wantPort []uint16
 	for _, f := range [][]byte{f1, f2} {
-		if p, _, _, ok := refFrame(f, nil, 68); ok {
+		if p, src, sport, ok := refFrame(f, nil, 68); ok {
 			want = append(want, p)
+			wantSrc = append(wantSrc, src)
+			wantPort = append(wantPort, sport)
 		}
 	}
+	// what each call returned is kept and compared only after the last read: a caller may hold on
+	// to an earlier payload or source address while it reads on
+	var gotP [][]byte
+	var gotA []net.Addr
 	for i := 0; i <= len(want); i++ {
 		b := make([]byte, 64)
-		n, _, err := conn.ReadFrom(b)
+		n, a, err := conn.ReadFrom(b)
 		if i < len(want) {
 			verifAssert(err == nil, "well-formed-frames-returned-in-order")
 			if err == nil {
 				verifAssert(verifSame(b[:n], want[i]), "payload-of-the-ith-well-formed-frame")
+				gotP = append(gotP, b[:n])
+				gotA = append(gotA, a)
 			}
 		} else {
 			verifAssert(err == errVerifNoMoreFrames, "nothing-else-returned")
+		}
+	}
+	for i := range gotP {
+		verifAssert(verifSame(gotP[i], want[i]), "earlier-payload-unchanged-by-later-reads")
+		ua, isUDP := gotA[i].(*net.UDPAddr)
+		verifAssert(isUDP, "source-is-a-udp-address")
+		if isUDP {
+			verifAssert(verifSame(ua.IP.To4(), wantSrc[i]) && ua.Port == int(wantPort[i]), "source-address-of-the-ith-frame-also-after-later-reads")
 		}
 	}
 	verifReach("end")
